@@ -5,7 +5,7 @@ from __future__ import annotations
 
 import ast
 
-from ..core import AnalysisError, norm, walk_no_nested, parent, call_name
+from ..core import AnalysisError, norm, walk_no_nested, parent, call_name, inline_locals, private_callees
 from ..cfg import CFG, guard_conditions
 from ..inject import injected_methods
 from ..schema import load_schema
@@ -289,7 +289,7 @@ def pre_post_symmetry(ctx, repo):
                 cur[st.targets[0].id] = call_name(v) if isinstance(v, ast.Call) else ("comprehension" if isinstance(v, ast.DictComp) else norm(v)[:30])
             for n in ast.walk(st) if isinstance(st, ast.Expr) else ():
                 if isinstance(n, ast.Call) and isinstance(n.func, ast.Attribute) and n.func.attr.startswith("map") and len(n.args) == 1 and isinstance(n.args[0], ast.Name):
-                    recv = norm(n.func.value)
+                    recv = norm(inline_locals(f.node, n.func.value))
                     out.append((n.args[0].id, cur.get(n.args[0].id), recv.rsplit(".", 1)[-1], n.func.attr))
         return f, out
 
@@ -317,13 +317,13 @@ def pre_post_symmetry(ctx, repo):
     def guards(f, recv, meth):
         out = []
         for n in ast.walk(f.node):
-            if isinstance(n, ast.Call) and isinstance(n.func, ast.Attribute) and n.func.attr == meth and norm(n.func.value).endswith("." + recv):
+            if isinstance(n, ast.Call) and isinstance(n.func, ast.Attribute) and n.func.attr == meth and norm(inline_locals(f.node, n.func.value)).endswith("." + recv):
                 cs = set()
                 for t, pol in guard_conditions(n):
                     if not pol:
                         continue
                     for c in (t.values if isinstance(t, ast.BoolOp) and isinstance(t.op, ast.And) else [t]):
-                        cs.add(norm(c))
+                        cs.add(norm(inline_locals(f.node, c)))
                 out.append(cs)
         return out
 
@@ -457,8 +457,16 @@ def cmap_first_wins(ctx, repo):
         conds = [(norm(t), pol) for t, pol in guard_conditions(st)]
         ok = ov is not None and (f"{ov} is None", True) in conds
         ctx.ob("MRG-cmap", f.where, f"the store {norm(st)} is guarded by `{ov} is None` with {ov} = {name}.get({key})", ok, "" if ok else "a later font can replace the glyph an earlier font mapped the character to")
-    app = [n for n in ast.walk(fn) if isinstance(n, ast.Call) and norm(n.func) == "chosenCmapTables.append"]
-    loops = [n for n in walk_no_nested(fn) if isinstance(n, ast.For) and isinstance(n.iter, ast.Call) and norm(n.iter.func) == "enumerate" and norm(n.iter.args[0]) == fn.args.args[1].arg]
+    # the selection loop may live in a private helper (extract function): look at the function that appends
+    cands = [f] + private_callees(repo, f)
+    app, loops = [], []
+    for h in cands:
+        a = [n for n in ast.walk(h.node) if isinstance(n, ast.Call) and isinstance(n.func, ast.Attribute) and n.func.attr == "append" and norm(n.func.value).lower().startswith("chosencmap")]
+        if a:
+            params = [x.arg for x in h.node.args.args]
+            app = a
+            loops = [n for n in walk_no_nested(h.node) if isinstance(n, ast.For) and isinstance(n.iter, ast.Call) and norm(n.iter.func) == "enumerate" and norm(n.iter.args[0]) in params]
+            break
     ok = bool(app) and len(loops) == 1 and all(_inside(a, loops[0]) for a in app)
     ctx.ob("MRG-cmap", f.where, "subtables are chosen while enumerating the fonts' cmap tables in argument order", ok)
     use = [n for n in walk_no_nested(fn) if isinstance(n, ast.For) and "chosenCmapTables" in norm(n.iter)]
@@ -514,8 +522,12 @@ def langsys_fallback(ctx, repo):
     f = m.func("mergeScripts")
     coll = None
     for n in ast.walk(f.node):
-        if isinstance(n, ast.Call) and isinstance(n.func, ast.Attribute) and n.func.attr == "append" and isinstance(n.func.value, ast.Subscript) and n.args and norm(n.args[0]).endswith(".LangSys"):
-            coll = norm(n.func.value.value)
+        if isinstance(n, ast.Call) and isinstance(n.func, ast.Attribute) and n.func.attr == "append" and n.args and norm(n.args[0]).endswith(".LangSys"):
+            recv = n.func.value
+            if isinstance(recv, ast.Subscript):
+                coll = norm(recv.value)
+            elif isinstance(recv, ast.Call) and isinstance(recv.func, ast.Attribute) and recv.func.attr == "setdefault":
+                coll = norm(recv.func.value)
     if coll is None:
         raise AnalysisError("mergeScripts: collection of explicit LangSys records not found")
     fb = False
